@@ -11,8 +11,8 @@ PROP = {
             "^TestVerifC08", ["udp-policy"], race=False,
             timeout_quick=300, timeout_thorough=3600),
         job("acl-udp", "extras", "./outbounds/", "outbounds",
-            ["harness/extras/outbounds/c08_aclcheck_test.go"],
-            "^TestVerifC08", ["acl-checkudp"], race=False,
+            ["harness/extras/outbounds/c08_aclcheck_test.go", "harness/extras/outbounds/c08_resolvers_test.go"],
+            "^TestVerifC08", ["acl-checkudp", "acl-resolvers"], race=False,
             timeout_quick=300, timeout_thorough=3600),
     ],
     "min_events": 20000,
@@ -41,12 +41,20 @@ PROP = {
              "the same address, verdicts are stable when re-asked after >1024 other lookups, and the chosen outbound / "
              "reject and the host handed on equal a reference first-match evaluation written from the documented rule "
              "semantics (IP and CIDR rules apply to whatever address was resolved, hijack replaces the host, no match = "
-             "default outbound)."),
+             "default outbound). Resolvers: the same chain with the REAL resolver stages -- standard resolver over UDP and over "
+             "TCP against an in-process DNS server on loopback, DoH resolver against an in-process HTTPS server (SERVFAIL "
+             "for one family = partial failure, NXDOMAIN = complete failure), system resolver with localhost -- 8 rule "
+             "sets per stage (random rules plus IP/CIDR rejections incl. loopback), destinations written as host names "
+             "and as IP literals x 4 ports: the verdict (reject / outbound / host) must be the same as a session's first "
+             "destination (UDP) and as a later one (CheckUDP), and equal the reference evaluation on the name and the "
+             "addresses it resolves to in the harness's zone."),
     "assumptions": [
         "the policy is a pure function of the destination string (as the property quantifies it)",
         "the server-layer job is black-box: it uses newUDPSessionManager / Run / Count and the udpIO, UDPConn, "
         "udpEventLogger interfaces only (no field of udp.go's structs, no constant)",
         "sub-outbounds behind the ACL engine answer CheckUDP and UDP consistently (fakes do)",
+        "the real-resolver part needs loopback UDP/TCP sockets (inconclusive if they cannot be opened); real time only "
+        "carries the DNS queries, verdicts are compared by value",
         "reference ACL evaluation: '*' in a name pattern matches any run of characters, names compare case-insensitively; "
         "IDN (xn--) hosts and, without a resolver stage, IP-literal hosts are excluded from the reference comparison",
         "no idle expiry or socket fault occurs in the server-layer cases (10 min timeout, virtual time barely moves)",
